@@ -102,7 +102,9 @@ Qed.
    player submitted, shifted by the input delay, the default input before the delay has elapsed:
    C01_held_inputs_step); every input (player, frame, value) that arrived is held as that player's input for that
    frame; and conversely every input held for a remote player arrived with an operation carrying that frame and
-   value - nothing is made up, relabelled, or taken from a prediction. *)
+   value - nothing is made up, relabelled, or taken from a prediction.  Last conjunct [OB]: between calls nothing
+   is left in outgoing_local_inputs, and every frame a local player's queue holds has been handed to the remote
+   endpoints (last_sent_outgoing_input_frame + 1 = the number of frames held) - nothing is withheld or stranded. *)
 Theorem C01_sent_inputs_are_the_simulated_inputs :
   forall (predict : Z -> Z), (forall x, predict (predict x) = predict x) -> predict 0 = 0 ->
   forall (sparse : bool) (ops : list sop) (n w d : Z) (kinds : list pkind) (eps : list (list Z)) (nspec : nat) (p : p2p) (outs : list (pout * apires)),
@@ -117,7 +119,7 @@ Theorem C01_sent_inputs_are_the_simulated_inputs :
       exists gh, nth_error gs (Z.to_nat pl) = Some gh /\ 0 <= f < hlen (fst gh) /\ hval (fst gh) f = v) /\
     (forall pl e gh f, 0 <= pl -> nth_error kinds (Z.to_nat pl) = Some (KRemote e) ->
       nth_error gs (Z.to_nat pl) = Some gh -> 0 <= f < hlen (fst gh) -> In (SRemote pl f (hval (fst gh) f)) ops) /\
-    ps_kinds p = kinds.
+    ps_kinds p = kinds /\ OB p gs.
 Proof. exact sends_and_receipts_any. Qed.
 
 (* Two peers, no hypothesis about what they hold: A owns player h, B sees h as a remote player; each runs ANY
